@@ -141,6 +141,31 @@ def r1_fresh_error_state(ctx, it):
                   f'emptied on every path BEFORE the parse: errors left behind by an earlier malformed cell - for instance when the '
                   f'parse or the tree walk of that cell raised before any later clean-up - make a later valid cell fail, so the outcome '
                   f'for a cell depends on the cells parsed before it')
+    # any OTHER object that lives as long as the importer and is plugged into the parser / lexer of this call (an error strategy, a
+    # token factory ...) carries its state - ANTLR's "already recovering" flag, for one - from one cell to the next
+    locals_made = {t.id for n in walk_local(it.node) if isinstance(n, ast.Assign) and isinstance(n.value, ast.Call) for t in n.targets
+                   if isinstance(t, ast.Name)}
+    for n in walk_local(it.node):
+        shared_ = None
+        if isinstance(n, ast.Assign) and isinstance(n.value, ast.Attribute) and F.is_name(n.value.value, 'self') \
+                and any(isinstance(t, ast.Attribute) and isinstance(t.value, ast.Name) and t.value.id in locals_made for t in n.targets):
+            shared_ = n.value
+        if isinstance(n, ast.Call) and isinstance(n.func, ast.Attribute) and isinstance(n.func.value, ast.Name) and n.func.value.id in locals_made \
+                and n.func.attr != 'addErrorListener':
+            for a_ in n.args:
+                if isinstance(a_, ast.Attribute) and F.is_name(a_.value, 'self'):
+                    shared_ = a_
+        if shared_ is not None and src(shared_) != osrc:
+            holder = ctx.prog.find_method(it.cls, '__init__') if it.cls is not None else None
+            made_in_init = any(isinstance(c_, ast.Assign) and any(src(t_) == src(shared_) for t_ in c_.targets) and isinstance(c_.value, ast.Call)
+                               for k_ in (ctx.prog.mro(it.cls) if it.cls is not None else []) for m_ in [k_.methods.get('__init__')] if m_ is not None
+                               for c_ in walk_local(m_.node))
+            rebound = any(isinstance(c_, ast.Assign) and any(src(t_) == src(shared_) for t_ in c_.targets) for c_ in walk_local(it.node))
+            if made_in_init and not rebound:
+                ctx.violation('R1', f'{it.module.relpath}:{n.lineno}', it.qualname, f'importer-lifetime-parser-state:{shared_.attr}',
+                              f'`{src(shared_)}` is created once per importer and plugged into the parser / lexer of every call (`{src(n)[:60]}`): '
+                              f'what it remembers of one cell (ANTLR error strategies keep an "in recovery" flag and the last error position) '
+                              f'decides how the next cell is parsed')
     # the collected errors decide the outcome: after the parse every return is guarded by a test of the collector, and the other
     # outcome of that test raises
     guarded_returns = raising = 0
